@@ -333,6 +333,8 @@ func (c *checker) judge(st *stored) int {
 }
 
 func checkHistory(orig *Batch) *wkpool.CaseResult {
+	// one P while the history runs: a sync.Pool hand-over (Put by one request, Get by the next) is deterministic
+	defer runtime.GOMAXPROCS(runtime.GOMAXPROCS(1))
 	a := *orig
 	a.Then, a.History = nil, ""
 	bb := orig.Then
